@@ -34,6 +34,7 @@ class Recorder:
         self.tids = {}
         self.serial = 0
         self.wf_errors = []
+        self.direct = []
         self.lock = threading.Lock()
 
     def tid(self):
@@ -103,6 +104,11 @@ class Recorder:
         else:
             self.serial += 1
             lt = Local(self, self.serial, self.cid(frame.f_code))
+        # who runs this activation segment: the profiler's wrapper (call / send / throw from profiler_mixin.py) or
+        # somebody else (an undecorated call, or the interpreter finalising an abandoned generator directly)
+        back = frame.f_back
+        if back is None or not back.f_code.co_filename.endswith('profiler_mixin.py'):
+            self.direct.append([lt.fid, lt.seg])
         return lt
 
 
@@ -404,10 +410,14 @@ def run_program(prog, root, lib, k):
             threading.settrace(rec.gtrace)
             sys.settrace(rec.gtrace)
         try:
-            ns['main'](h)
+            try:
+                ns['main'](h)
+            except BaseException as e:   # noqa
+                err = '%s: %s' % (type(e).__name__, e)
+            # also when main() was aborted by an exception: what it leaves behind (suspended generators, their
+            # wrappers, cycles through the traceback) is finalised HERE - after the handler released the exception,
+            # inside the recorded / profiled window of both phases - not at some later allocation
             gc.collect()
-        except BaseException as e:   # noqa
-            err = '%s: %s' % (type(e).__name__, e)
         finally:
             if phase == 'A':
                 sys.settrace(None)
@@ -419,6 +429,7 @@ def run_program(prog, root, lib, k):
             result['errA'] = err
             result['ops'] = rec.ops
             result['ncodesA'] = len(rec.codes)
+            result['direct_segs'] = rec.direct
             result['impure'] = h.impure
             result['not_registered'] = list(h.not_registered)
         else:
@@ -480,6 +491,7 @@ def main():
             import traceback
             r = dict(fatal=traceback.format_exc()[-1500:])
         faulthandler.cancel_dump_traceback_later()
+        gc.collect()        # nothing of this program is left to be finalised inside the next one
         out.append(r)
     emit(dict(out=out, have_clock=have_clock))
 
